@@ -458,9 +458,71 @@ def check_chain(case: dict, res: dict) -> list[tuple[str, str]]:
     return out
 
 
+def build_trace(files: dict, main: str) -> dict:
+    """compile with ExplorerScriptMacro.build wrapped (from outside): for every invocation the counter before and after,
+    the kinds of the blueprint items (with the lengths stored in start labels), the length in the start label the build
+    emits, and (number, return address) of every operation it registers"""
+    import explorerscript.macro as mm
+    from explorerscript.macro import MacroStartSsbLabel, MacroEndSsbLabel
+    from explorerscript.ssb_converting.ssb_special_ops import SsbLabel
+    from files import compile_files
+
+    calls: list = []
+    orig = mm.ExplorerScriptMacro.build
+
+    def build(self, op_idx_counter, lbl_idx_counter, parameters, smb):  # type: ignore
+        c0 = op_idx_counter.count
+        depth0 = len(smb._macro_context__stack)
+        items = []
+        for o in self.blueprints:
+            if isinstance(o, MacroStartSsbLabel):
+                items.append(["start", o.length_of_macro])
+            elif isinstance(o, MacroEndSsbLabel):
+                items.append(["end"])
+            elif isinstance(o, SsbLabel):
+                items.append(["lab"])
+            else:
+                items.append(["op"])
+        before = set(smb._mappings_macros.keys())
+        out = orig(self, op_idx_counter, lbl_idx_counter, parameters, smb)
+        new = sorted(k for k in smb._mappings_macros.keys() if k not in before or c0 < k <= op_idx_counter.count)
+        calls.append({"macro": self.name, "count0": c0, "count1": op_idx_counter.count, "items": items,
+                      "own_start": out[0].length_of_macro if isinstance(out[0], MacroStartSsbLabel) else None,
+                      "own_end": isinstance(out[-1], MacroEndSsbLabel),
+                      "stack_restored": len(smb._macro_context__stack) == depth0,
+                      "ops": [[k, smb._mappings_macros[k].return_addr] for k in new]})
+        return out
+
+    mm.ExplorerScriptMacro.build = build  # type: ignore
+    try:
+        res = compile_files(files, main, [])
+    finally:
+        mm.ExplorerScriptMacro.build = orig  # type: ignore
+    return {"ok": True, "compiled": res["ok"], "calls": calls}
+
+
+def forest_of_items(items: list) -> list | None:
+    """the nesting of a flat blueprint (None if start and end labels do not balance)"""
+    from core import A
+    stack: list = [[]]
+    for it in items:
+        if it[0] == "start":
+            stack.append([])
+        elif it[0] == "end":
+            if len(stack) < 2:
+                return None
+            b = stack.pop()
+            stack[-1].append([A("call"), b])
+        else:
+            stack[-1].append([A(it[0])])
+    return stack[0] if len(stack) == 1 else None
+
+
 def main() -> None:
     run = Run("C08", "exploration")
     run.forbid()
+    run.require_vo(["Comp/MacroRA.v", "Comp/MacroRAProofs.v"])
+    run.props("Props/C08.v")
     q = run.tier == "quick"
     cases = [gen_program(f"C08-{run.seed}-{i}") for i in range(400 if q else 6000)]
     res = run_impl([("files:compile_files", c["files"], "main.exps", []) for c in cases])
@@ -493,6 +555,42 @@ def main() -> None:
             if sig not in seen:
                 seen.add(sig)
                 run.fail(sig, what, {"files": c["files"], "source_map": r["sm"], "ops": r["ops"]})
+    # K-ra: Comp/MacroRA.v against every invocation of ExplorerScriptMacro.build in these compilations
+    from core import A, run_driver
+    tr_cases = [c for c in chains] + cases[: (150 if q else 1500)]
+    traces = run_impl([("checks.c08:build_trace", c["files"], "main.exps") for c in tr_cases])
+    calls = [(c, k) for c, t in zip(tr_cases, traces) if t.get("ok") for k in t["calls"]]
+    bad = [t for t in traces if not t.get("ok")]
+    if bad or not calls:
+        run.correspondence_broken("K-ra (Comp/MacroRA.v)", "the invocations of build could not be recorded", {"first": bad[:1], "calls": len(calls)})
+    forests = [forest_of_items(k["items"]) for _, k in calls]
+    mods = run_driver([[A("macrora"), f if f is not None else [], k["count0"]] for (_, k), f in zip(calls, forests)])
+    kfirst = None
+    for (c, k), f, mo in zip(calls, forests, mods):
+        diff = None
+        if f is None:
+            diff = "start and end labels of a blueprint do not balance"
+        elif mo.get("r") != "ok":
+            diff = "model failed"
+        elif mo["flat"][1:-1] != k["items"] or mo["flat"][0] != ["start", k["own_start"]] or not k["own_end"]:
+            diff = "flat (stored lengths / start and end labels) vs the blueprint and the labels build emits"
+        elif [list(x) for x in mo["exec"]] != k["ops"]:
+            diff = "exec vs the registered (number, return address) pairs"
+        elif mo["exec"] != mo["spec"]:
+            diff = "exec vs spec"
+        elif k["count1"] != k["count0"] + mo["ops"] or not k["stack_restored"]:
+            diff = "counter / context stack after the build"
+        run.count("K-ra:" + ("ok" if diff is None else "DIFF"))
+        depth = 0
+        d = 0
+        for it in k["items"]:
+            d += 1 if it[0] == "start" else -1 if it[0] == "end" else 0
+            depth = max(depth, d)
+        run.count(f"K-ra nesting depth {depth}")
+        if diff and kfirst is None:
+            kfirst = (diff, {"files": c["files"], "call": k, "model": mo})
+    if kfirst is not None:
+        run.correspondence_broken("K-ra (Comp/MacroRA.v)", kfirst[0], kfirst[1])
     run.sample({"files": cases[0]["files"]})
     run.finish(rule="programs with a unique tag in every op-emitting construct, several statements per line, irregular indentation, "
                     "macros (local and in 0-2 imported files, nested calls); positions recorded by the generator's printer")
